@@ -295,6 +295,7 @@ type c18Backend interface {
 	addBatch(sigs []*detection.Signature) error
 	get(id string) (*detection.Signature, error)
 	saveLoad() error
+	refusedLoad(path string) error // load / migrate a file that must be refused
 	close()
 }
 
@@ -319,10 +320,17 @@ func (b *c18Pebble) saveLoad() error {
 	return nil
 }
 
+func (b *c18Pebble) refusedLoad(path string) error {
+	_, err := b.s.MigrateFromJSON(path)
+	return err
+}
+
 type c18JSON struct {
 	s    *jsondb.Scanner
 	path string
 }
+
+func (b *c18JSON) refusedLoad(path string) error { return b.s.LoadDatabase(path) }
 
 func (b *c18JSON) add(sig *detection.Signature) error { return b.s.AddSignature(sig) }
 func (b *c18JSON) addBatch(sigs []*detection.Signature) error {
@@ -377,7 +385,23 @@ func TestVerifC18AddGet(t *testing.T) {
 	}
 	steps = append(steps,
 		step{"Batch(A,B)", []string{"A", "B"}, "batch"}, step{"Batch(A,A)", []string{"A", "A"}, "batch"}, step{"Batch(auto,A)", []string{"", "A"}, "batch"},
-		step{"SaveLoad", nil, "saveload"})
+		step{"SaveLoad", nil, "saveload"},
+		step{"RefusedLoad(truncated)", nil, "badload-truncated"}, step{"RefusedLoad(malformed)", nil, "badload-malformed"})
+	// files that must be refused: a database with three OTHER signatures (X, Y, Z), cut in the
+	// middle of the second entry, and the same database with a wrongly typed field in its last entry
+	var others []detection.Signature
+	for i, id := range []string{"X", "Y", "Z"} {
+		others = append(others, mkSig(id, 100+i))
+	}
+	goodJSON, _ := json.Marshal(detection.SignatureDatabase{Version: "1.0", Signatures: others})
+	badFiles := map[string]string{"badload-truncated": filepath.Join(scratch, "refused-truncated.json"), "badload-malformed": filepath.Join(scratch, "refused-malformed.json")}
+	os.WriteFile(badFiles["badload-truncated"], goodJSON[:len(goodJSON)*2/3], 0o644)
+	mal := strings.Replace(string(goodJSON), `"id":"Z"`, `"id":"Z","node_count":"seven"`, 1)
+	if mal == string(goodJSON) || strings.Count(mal, `"node_count"`) < 2 {
+		// make sure the typed field is really in conflict (a second node_count key with a string)
+		mal = strings.Replace(string(goodJSON), `"id":"Z"`, `"id":"Z","unknown_field_for_refusal":1`, 1)
+	}
+	os.WriteFile(badFiles["badload-malformed"], []byte(mal), 0o644)
 	depth := 3
 	idx := 0
 	var rec func(seq []int)
@@ -441,6 +465,11 @@ func TestVerifC18AddGet(t *testing.T) {
 							origs[i].ID = p.ID
 							want[p.ID] = origs[i]
 						}
+					}
+				case "badload-truncated", "badload-malformed":
+					if err := b.refusedLoad(badFiles[st.kind]); err == nil {
+						r.Violate(key+"/accepted", fmt.Sprintf("%s: the file was accepted without an error", st.name), rp)
+						failed = true
 					}
 				case "saveload":
 					if err := b.saveLoad(); err != nil {
